@@ -21,6 +21,8 @@ Definition model_agrees (c : case) : bool :=
   negb (k_setup_failed c)
   (* the hypotheses of model_meets_spec hold of this case *)
   && (is_composite (c_fin c) || sortedb (c_tbl c)) && (in_domain (c_chain c) (c_fin c) || slice_dom (c_fin c))
+  (* composite-key tables: no STORED row has a zero-valued key member (a value may have one) *)
+  && (negb (is_composite (c_fin c)) || forallb (fun r => negb (ckey_zero r)) (c_tbl c))
   && Bool.eqb (k_err c) (res_err m)
   && (k_err c || rec_eqb (k_ret c) (res_ret m))
   && list_eqb rec_eqb (k_rets c) (step_rets (c_tbl c) (c_now c) (c_fin c))
